@@ -451,6 +451,8 @@ def run(repo: Repo, R: Report) -> None:
     _mappings_of_sanitised_values_agree(repo, R)
     _trace_only_code_is_total(repo, R, ex, facts, helper_fns)
     _record_mapping_keys_ordered(repo, R, ex, facts)
+    _written_text_always_encodable(repo, R)
+    _published_class_state_is_snapshot(repo, R, [ex] + [f for _r, _q, f in builders])
     # the caller-owned canonical spec is not mutated (pipeline_id would depend on history)
     from . import c04
 
@@ -1484,6 +1486,7 @@ def _no_identity_in_stream(repo: Repo, R: Report, ex: ast.AST, helper_fns, drive
             R.ok(r, rel, qn, f"{qn}: no identity" + ("/clock" if clock_too else "") + " source reaches the output")
         if not hist_bad:
             R.ok(r_hist, rel, qn, f"{qn}: nothing it returns / writes is read from an interpreter-wide history table")
+    _no_volatile_object_text_in_stream(repo, R, {**scan, (ORCH, EXECUTE): (ex, True)})
     for src, what in _history_sources(omod, ex):
         sink = _flows_to_output(ex, src, through_tests=True)
         R.check(sink is None, r_hist, ORCH, EXECUTE, norm(stmt_of(src))[:90], f"{what} decides `{norm(sink)[:60] if sink is not None else ''}`: what execute() hands to the trace driver depends on what ran earlier in the process", src.lineno)
@@ -3773,3 +3776,383 @@ def _record_mapping_keys_ordered(repo: Repo, R: Report, ex: ast.AST, facts: "_Tr
             R.check(ok, r, m.rel, qn, norm(loop)[:90] if isinstance(loop, ast.DictComp) else f"for {norm(loop.target)} in {norm(loop.iter)[:70]}", (f"`{holder}` is returned into the step record with keys taken from the run, in the order of `{norm(it)[:50]}` - not one `sorted(..)` of all of them: keys that cannot be ordered among each other (an int bin next to a text key) now pass this function in both modes and fail in the driver's `json.dumps(.., sort_keys=True)` (and in its fallback) of the traced run only - the traced run raises where the untraced run returns" if not ok else ""), getattr(loop, "lineno", t.lineno))
     if n == 0:
         raise AnalysisError("no trace-package function called from execute() builds a mapping keyed by run-derived keys (context delta summaries): anchor vanished")
+
+
+# ---------------------------------------------------------------------------------------------------------
+# Round 8 (seed8 C10 a/b)
+# ---------------------------------------------------------------------------------------------------------
+_NONRAISING_ENCODE_ERRORS = {"backslashreplace", "replace", "ignore", "xmlcharrefreplace", "namereplace", "surrogatepass"}
+_DUMPS = ("json.dumps", "dumps")
+_MUTABLE_ANN = {"Dict", "dict", "List", "list", "Mapping", "MutableMapping", "Set", "set", "Sequence", "MutableSequence", "Any", "Iterable", "object", "OrderedDict", "defaultdict", "?"}
+_COPY_CALLS = {"dict", "set", "list", "tuple", "sorted", "frozenset", "copy", "deepcopy", "OrderedDict", "cast", "MappingProxyType"}
+
+
+def _dumps_behind(repo: Repo, mod, fn: ast.AST, e: ast.AST, depth: int = 0, seen: Optional[Set[int]] = None) -> List[Tuple[str, str, ast.Call]]:
+    """The json.dumps calls whose text the expression *e* (evaluated in *fn*) can carry: written in place, bound to
+    a local first, or made by a repository function that *e* calls (a line-format helper, wherever it lives)."""
+    seen = set() if seen is None else seen
+    out: List[Tuple[str, str, ast.Call]] = []
+    for form in _value_forms(fn, e):
+        todo = [form]
+        while todo:
+            x = todo.pop()
+            if isinstance(x, ast.Call):
+                d = call_name(x) or ""
+                if d in _DUMPS and not (d == "dumps" and isinstance(x.func, ast.Attribute)):
+                    out.append((mod.rel, qualname_of(fn), x))
+                    continue  # what is encoded is not text that is written as it is
+                if depth < 3:
+                    for m, t in repo.resolve_call(mod, x):
+                        if isinstance(t, FuncNode) and id(t) not in seen and t.name != "__init__":
+                            seen.add(id(t))
+                            for rv in [y.value for y in walk_no_nested(t) if isinstance(y, ast.Return) and y.value is not None]:
+                                out.extend(_dumps_behind(repo, m, t, rv, depth + 1, seen))
+                    if repo.resolve_call(mod, x):
+                        continue
+            elif isinstance(x, ast.Name) and isinstance(x.ctx, ast.Load) and x is not form and depth < 3:
+                for v in _lookup(fn, x):
+                    if id(v) not in seen:
+                        seen.add(id(v))
+                        out.extend(_dumps_behind(repo, mod, fn, v, depth + 1, seen))
+            todo.extend(ast.iter_child_nodes(x))
+    return out
+
+
+def _written_text_always_encodable(repo: Repo, R: Report) -> None:
+    r = R.rule("C10-D1-written-text-always-encodable", "the sanitisers let every `str` through (their probe builds the JSON text and never encodes it), so a trace driver hands its text file only text that the file's codec accepts whatever the strings are: the json.dumps behind each `.write(..)` of a driver keeps `ensure_ascii` (lone surrogates - `os.fsdecode` of a file name that is not UTF-8, in a parameter, a context value or an error message - leave the encoder as ASCII escapes), or every text file of the driver is opened with an error handler that cannot raise, or the write is inside a try that contains the UnicodeEncodeError. Otherwise the write raises out of a driver callback: the traced run raises where the untraced run returns", 1)
+    rels = sorted(m for m in repo.modules if m.startswith("semantiva/trace/drivers/"))
+    for rel in rels:
+        mod = repo.module(rel)
+        fns = [(q, n) for q, n in mod.defs.items() if isinstance(n, FuncNode)]
+        opens = [c for _q, f in fns for c in calls_in(f) if call_attr(c) == "open"]
+        lenient = bool(opens) and all(isinstance(kwarg(c, "errors"), ast.Constant) and kwarg(c, "errors").value in _NONRAISING_ENCODE_ERRORS for c in opens)
+        for qn, f in fns:
+            for w in calls_in(f):
+                if not (isinstance(w.func, ast.Attribute) and w.func.attr in ("write", "writelines") and w.args):
+                    continue
+                for d_rel, d_qn, d in _dumps_behind(repo, mod, f, w.args[0]):
+                    ea = kwarg(d, "ensure_ascii")
+                    ascii_only = (ea is None and not any(k.arg is None for k in d.keywords)) or (isinstance(ea, ast.Constant) and ea.value is True)
+                    ok = ascii_only or lenient or _caught_without_reraise(w, {"UnicodeEncodeError", "UnicodeError", "ValueError"})
+                    R.check(ok, r, d_rel, d_qn, norm(d)[:90],
+                            f"the text of `{norm(d)[:60]}` (ensure_ascii={ast.unparse(ea) if ea is not None else '**options'}) is handed to `{norm(w.func)}` in {qn}: raw non-ASCII text reaches a text file opened with a strict codec, and a string with a lone surrogate - which serialize_json_safe lets through - makes write() raise UnicodeEncodeError (a ValueError: the TypeError fallbacks do not apply) out of the driver callback; the traced run raises where the untraced run returns",
+                            getattr(d, "lineno", w.lineno))
+
+
+def _attrs_read_off(fn: ast.AST, var: str) -> Set[str]:
+    """Attribute names read off the name *var* inside *fn*: `var.X`, `getattr(var, "X", ..)`, `type(var).X`."""
+    out: Set[str] = set()
+    for n in ast.walk(fn):
+        if isinstance(n, ast.Attribute) and isinstance(n.ctx, ast.Load):
+            b = n.value
+            if isinstance(b, ast.Call) and call_attr(b) == "type" and len(b.args) == 1:
+                b = b.args[0]
+            if isinstance(b, ast.Attribute) and b.attr == "__class__":
+                b = b.value
+            if isinstance(b, ast.Name) and b.id == var:
+                out.add(n.attr)
+        elif isinstance(n, ast.Call) and call_attr(n) == "getattr" and not isinstance(n.func, ast.Attribute) and len(n.args) >= 2 and isinstance(n.args[0], ast.Name) and n.args[0].id == var and isinstance(n.args[1], ast.Constant) and isinstance(n.args[1].value, str):
+            out.add(n.args[1].value)
+    return out
+
+
+def _all_attr_reads(fn: ast.AST) -> Set[str]:
+    out = {n.attr for n in ast.walk(fn) if isinstance(n, ast.Attribute) and isinstance(n.ctx, ast.Load)}
+    out |= {n.args[1].value for n in ast.walk(fn) if isinstance(n, ast.Call) and call_attr(n) == "getattr" and len(n.args) >= 2 and isinstance(n.args[1], ast.Constant) and isinstance(n.args[1].value, str)}
+    return out
+
+
+def _metadata_hooks(repo: Repo, trace_fns: List[ast.AST]) -> Set[str]:
+    """Names of the per-class hooks behind the metadata the trace path asks a processor class for: the trace-path
+    functions call `<class>.G()`; a classmethod G of the package calls `cls.H()` - H is what subclasses override."""
+    asked = {c.func.attr for f in trace_fns for c in calls_in(f, include_nested=True) if isinstance(c.func, ast.Attribute) and not c.args and not c.keywords}
+    hooks: Set[str] = set()
+    for mod, _qn, c in repo.all_classes():
+        for m in c.body:
+            if isinstance(m, FuncNode) and m.name in asked and m.args.args and any((dotted_name(d) or "") == "classmethod" for d in m.decorator_list):
+                me = m.args.args[0].arg
+                hooks |= {x.func.attr for x in calls_in(m) if isinstance(x.func, ast.Attribute) and isinstance(x.func.value, ast.Name) and x.func.value.id == me and not x.args and not x.keywords}
+    return hooks
+
+
+def _published_class_state_is_snapshot(repo: Repo, R: Report, trace_fns: List[ast.AST]) -> None:
+    from . import c12
+
+    r = R.rule("C10-D2-published-class-state-is-a-snapshot", "the trace identity of a node (node / pipeline semantic id, config id, preprocessor metadata and provenance of every step record) is recomputed at every run from the metadata hook of the processor class; for a class generated by a factory function that hook reads class attributes the factory filled from its arguments. An attribute that only the published metadata reads - nothing the class executes - holds a private copy taken when the class was created, never the caller's own mutable object: the caller goes on using that object (editing the configuration to build the next variant of a parameter study), the pipeline keeps computing what it was built to compute, and its next trace would carry ids of something else - traces of equal runs would depend on what happened in between", 1)
+    hooks = _metadata_hooks(repo, trace_fns)
+    if not hooks:
+        raise AnalysisError("the metadata hook the trace path reads processor metadata through was not recognised")
+    n_cls = 0
+    for mod, qn, c in repo.all_classes():
+        if mod.rel.startswith("semantiva/examples/"):
+            continue
+        maker = next((a for a in ancestors(c) if isinstance(a, FuncNode)), None)
+        provs = [m for m in c.body if isinstance(m, FuncNode) and m.name in hooks and m.args.args]
+        if maker is None or not provs:
+            continue
+        n_cls += 1
+        published: Set[str] = set()
+        pub_fns: List[ast.AST] = []
+        for pm in provs:
+            me = pm.args.args[0].arg
+            pub_fns.append(pm)
+            published |= _attrs_read_off(pm, me)
+            # closures of the factory the hook hands the class to
+            for call in calls_in(pm):
+                if isinstance(call.func, ast.Name):
+                    tgt = next((x for a in ancestors(c) if isinstance(a, FuncNode) for x in ast.walk(a) if isinstance(x, FuncNode) and x is not a and x.name == call.func.id and not any(y is c for y in ancestors(x))), None)
+                    tgts = [tgt] if tgt is not None else [t for _m, t in repo.resolve_call(mod, call) if isinstance(t, FuncNode)]
+                    for tgt in tgts:
+                        b = _bind_call(tgt, call)
+                        for p, a in (b or {}).items():
+                            if isinstance(a, ast.Name) and a.id == me:
+                                pub_fns.append(tgt)
+                                published |= _attrs_read_off(tgt, p)
+        executed: Set[str] = set()
+        for m in c.body:
+            if isinstance(m, FuncNode) and not any(m is p for p in pub_fns):
+                executed |= _all_attr_reads(m)
+        mutable_params = {a.arg for a in maker.args.args + maker.args.kwonlyargs + maker.args.posonlyargs if a.annotation is None or (_ann_names(a.annotation) & _MUTABLE_ANN)}
+        for st in c.body:
+            if isinstance(st, ast.Assign) and len(st.targets) == 1 and isinstance(st.targets[0], ast.Name):
+                tname, val = st.targets[0].id, st.value
+            elif isinstance(st, ast.AnnAssign) and isinstance(st.target, ast.Name) and st.value is not None:
+                tname, val = st.target.id, st.value
+            else:
+                continue
+            if tname not in published or tname in executed:
+                continue
+            roots = c12._param_roots(maker, val) & mutable_params
+            if not roots:
+                R.ok(r, mod.rel, qn, norm(st))
+                continue
+            ok, why = c12._is_fresh(maker, val)
+            R.check(ok, r, mod.rel, qn, norm(st),
+                    f"class attribute `{tname}` is read only by the metadata the trace identity is recomputed from at every run (not by anything the class executes) and is {why}: after the caller edits or re-uses that object the same pipeline computes the same result but its trace carries different semantic / config ids and provenance - the trace depends on what happened between two runs",
+                    st.lineno)
+    if n_cls == 0:
+        raise AnalysisError("no factory-generated processor class overriding the metadata hook was found")
+
+
+# ---------------------------------------------------------------------------------------------------------
+# Round 8 (seed8 C10 c): the text of a framework object is a stable value only when its class says nothing volatile
+# ---------------------------------------------------------------------------------------------------------
+_TEXT_HOOKS = ("__str__", "__repr__", "__format__")
+
+
+class _VolatileText:
+    """Which classes of the package describe themselves (`__str__` / `__repr__` / `__format__`) with something that
+    differs between two equal runs: a clock reading, an identity, or instance state that a method accumulates
+    (`self.n += 1`, `self.elapsed += now - start`) - directly, through their own methods, or through the text of an
+    attribute that holds an instance of such a class.  Classes are found by what they do, not by their names."""
+
+    def __init__(self, repo: Repo):
+        self.repo = repo
+        self.classes: List[Tuple[object, ast.ClassDef]] = [(m, c) for m, _q, c in repo.all_classes()]
+        self.by_id = {id(c): (m, c) for m, c in self.classes}
+        self._vol_attrs: Dict[int, Dict[str, ast.AST]] = {}
+        self._vol_meths: Dict[int, Dict[str, ast.AST]] = {}
+        self.text: Dict[int, Tuple[str, ast.AST, str]] = {}  # class id -> (hook, witness node, why)
+        self._solve()
+
+    def family_methods(self, mod, cls: ast.ClassDef) -> Dict[str, ast.AST]:
+        out: Dict[str, ast.AST] = {}
+        for _m, c in self.repo.mro(mod, cls):
+            for st in c.body:
+                if isinstance(st, FuncNode):
+                    out.setdefault(st.name, st)
+        return out
+
+    def attr_classes(self, mod, cls: ast.ClassDef, attr: str) -> List[Tuple[object, ast.ClassDef]]:
+        """Repo classes an instance attribute can hold: declared in a class body, or bound to a constructor call."""
+        out: List[Tuple[object, ast.ClassDef]] = []
+        for m, c in self.repo.mro(mod, cls):
+            for st in c.body:
+                if isinstance(st, ast.AnnAssign) and isinstance(st.target, ast.Name) and st.target.id == attr:
+                    for x in ast.walk(st.annotation):
+                        if isinstance(x, (ast.Name, ast.Attribute)):
+                            hit = self.repo.resolve_name(m, x, st)
+                            if hit and isinstance(hit[1], ast.ClassDef):
+                                out.append(hit)
+                if isinstance(st, FuncNode):
+                    for n in ast.walk(st):
+                        if isinstance(n, (ast.Assign, ast.AnnAssign)) and isinstance(getattr(n, "value", None), ast.Call):
+                            tg = n.targets if isinstance(n, ast.Assign) else [n.target]
+                            if any(_self_attr(t) == attr for t in tg):
+                                hit = self.repo.resolve_name(m, n.value.func, n)
+                                if hit and isinstance(hit[1], ast.ClassDef):
+                                    out.append(hit)
+        return out
+
+    def _solve(self) -> None:
+        # 1. volatile instance state and the methods that hand it out
+        for mod, cls in self.classes:
+            meths = self.family_methods(mod, cls)
+            vattrs: Dict[str, ast.AST] = {}
+            for f in meths.values():
+                for n in ast.walk(f):
+                    if isinstance(n, ast.AugAssign) and _self_attr(n.target) is not None:
+                        vattrs.setdefault(n.target.attr, n)
+                    elif isinstance(n, (ast.Assign, ast.AnnAssign)) and getattr(n, "value", None) is not None:
+                        if any(isinstance(c, ast.Call) and _source_kind(c) in ("clock", "identity") for c in ast.walk(n.value)):
+                            for t in (n.targets if isinstance(n, ast.Assign) else [n.target]):
+                                if _self_attr(t) is not None:
+                                    vattrs.setdefault(t.attr, n)
+            vm: Dict[str, ast.AST] = {}
+            changed = True
+            while changed:
+                changed = False
+                for name, f in meths.items():
+                    if name in vm or name in ("__init__",):
+                        continue
+                    rets = [x.value for x in ast.walk(f) if isinstance(x, ast.Return) and x.value is not None]
+                    w = None
+                    for rv in rets:
+                        for n in ast.walk(rv):
+                            if isinstance(n, ast.Call) and _source_kind(n) in ("clock", "identity"):
+                                w = n
+                            elif isinstance(n, ast.Attribute) and isinstance(n.ctx, ast.Load) and _self_attr(n) in vattrs:
+                                w = n
+                            elif isinstance(n, ast.Call) and _self_attr(n.func) in vm:
+                                w = n
+                            if w is not None:
+                                break
+                        if w is not None:
+                            break
+                    if w is not None:
+                        vm[name] = w
+                        changed = True
+            self._vol_attrs[id(cls)] = vattrs
+            self._vol_meths[id(cls)] = vm
+        # 2. text hooks: volatile themselves, or embedding the text of an attribute of a volatile-text class
+        changed = True
+        while changed:
+            changed = False
+            for mod, cls in self.classes:
+                if id(cls) in self.text:
+                    continue
+                meths = self.family_methods(mod, cls)
+                for hook in _TEXT_HOOKS:
+                    f = meths.get(hook)
+                    if f is None:
+                        continue
+                    if hook in self._vol_meths[id(cls)]:
+                        self.text[id(cls)] = (hook, self._vol_meths[id(cls)][hook], f"`{norm(self._vol_meths[id(cls)][hook])[:50]}` in {cls.name}.{hook} is a clock reading / counter of the instance")
+                        changed = True
+                        break
+                    hit = None
+                    for n in ast.walk(f):
+                        if isinstance(n, ast.Attribute) and isinstance(n.ctx, ast.Load) and _self_attr(n) is not None:
+                            for m2, c2 in self.attr_classes(mod, cls, n.attr):
+                                fam = [c2] + [c for _m, c in self.repo.subclasses(c2)]
+                                t = next((self.text[id(c)] for c in fam if id(c) in self.text), None)
+                                if t is not None:
+                                    hit = (n, c2, t)
+                                    break
+                        if hit:
+                            break
+                    if hit:
+                        n, c2, t = hit
+                        self.text[id(cls)] = (hook, n, f"{cls.name}.{hook} embeds `{norm(n)}`, a {c2.name}, whose text is volatile ({t[2]})")
+                        changed = True
+                        break
+
+    def of_expr(self, mod, fn: ast.AST, e: ast.AST) -> Optional[Tuple[ast.ClassDef, Tuple[str, ast.AST, str]]]:
+        """The volatile-text verdict for the declared class of *e* (a parameter of *fn*, or an attribute chain on one)."""
+        cands: List[Tuple[object, ast.ClassDef]] = []
+        if isinstance(e, ast.Name):
+            a = next((x for x in fn.args.posonlyargs + fn.args.args + fn.args.kwonlyargs if x.arg == e.id), None)
+            if a is None or a.annotation is None or assigned_value(fn, e.id):
+                return None
+            ann = a.annotation
+            if isinstance(ann, ast.Constant) and isinstance(ann.value, str):
+                try:
+                    ann = ast.parse(ann.value, mode="eval").body
+                except SyntaxError:
+                    return None
+            for x in ast.walk(ann):
+                if isinstance(x, (ast.Name, ast.Attribute)):
+                    hit = self.repo.resolve_name(mod, x, fn)
+                    if hit and isinstance(hit[1], ast.ClassDef):
+                        cands.append(hit)
+        elif isinstance(e, ast.Attribute):
+            base = self._classes_of(mod, fn, e.value)
+            for m, c in base:
+                cands.extend(self.attr_classes(m, c, e.attr))
+        for m, c in cands:
+            for c2 in [c] + [x for _m, x in self.repo.subclasses(c)]:
+                if id(c2) in self.text:
+                    return c2, self.text[id(c2)]
+        return None
+
+    def _classes_of(self, mod, fn: ast.AST, e: ast.AST) -> List[Tuple[object, ast.ClassDef]]:
+        out: List[Tuple[object, ast.ClassDef]] = []
+        if isinstance(e, ast.Name):
+            a = next((x for x in fn.args.posonlyargs + fn.args.args + fn.args.kwonlyargs if x.arg == e.id), None)
+            if a is not None and a.annotation is not None and not assigned_value(fn, e.id):
+                for x in ast.walk(a.annotation):
+                    if isinstance(x, (ast.Name, ast.Attribute)):
+                        hit = self.repo.resolve_name(mod, x, fn)
+                        if hit and isinstance(hit[1], ast.ClassDef):
+                            out.append(hit)
+                            out.extend(self.repo.subclasses(hit[1]))
+        elif isinstance(e, ast.Attribute):
+            for m, c in self._classes_of(mod, fn, e.value):
+                out.extend(self.attr_classes(m, c, e.attr))
+        return out
+
+    def volatile_method_call(self, mod, fn: ast.AST, c: ast.Call) -> Optional[Tuple[ast.ClassDef, str]]:
+        if not isinstance(c.func, ast.Attribute):
+            return None
+        for m, k in self._classes_of(mod, fn, c.func.value):
+            if c.func.attr in self._vol_meths.get(id(k), {}):
+                return k, c.func.attr
+        return None
+
+
+def _text_conversions(f: ast.AST) -> List[Tuple[ast.AST, ast.AST]]:
+    """(conversion expression, operand) for every place *f* turns a value into text: str / repr / format / ascii
+    calls, replacement fields of f-strings, `"..".format(x)`, `"%s" % x`."""
+    out: List[Tuple[ast.AST, ast.AST]] = []
+    for n in ast.walk(f):
+        if isinstance(n, ast.Call) and isinstance(n.func, ast.Name) and n.func.id in ("str", "repr", "format", "ascii") and n.args:
+            out.append((n, n.args[0]))
+        elif isinstance(n, ast.FormattedValue):
+            out.append((n, n.value))
+        elif isinstance(n, ast.Call) and isinstance(n.func, ast.Attribute) and n.func.attr == "format" and isinstance(n.func.value, ast.Constant) and isinstance(n.func.value.value, str):
+            out.extend((n, a) for a in list(n.args) + [k.value for k in n.keywords])
+        elif isinstance(n, ast.BinOp) and isinstance(n.op, ast.Mod) and isinstance(n.left, ast.Constant) and isinstance(n.left.value, str):
+            out.extend((n, a) for a in (n.right.elts if isinstance(n.right, ast.Tuple) else [n.right]))
+    return out
+
+
+def _no_volatile_object_text_in_stream(repo: Repo, R: Report, scan) -> None:
+    r = R.rule("C10-D2-no-volatile-object-text-in-stream", "what a trace-path function returns, persists or hands to a driver contains no text of a framework object whose class describes itself with something that differs between two equal runs, and no reading of such an object: a class of the package whose `__str__` / `__repr__` / `__format__` reports a clock reading, an elapsed time or a counter its methods accumulate (directly, through its own methods, or by embedding the text of an attribute that holds such an object - a node prints its stopwatch) yields a different string at every run; `str(x)` / `repr(x)` / an f-string field of a value declared as such a class (or a call of one of its time / counter accessors) outside the documented volatile block copies a duration or a call count into a stable field, so two traces of the same run disagree after the volatile fields are removed", 10)
+    vt = _VolatileText(repo)
+    for (rel, qn), (f, clock_too) in sorted(scan.items()):
+        if not clock_too:
+            continue
+        mod = repo.module(rel)
+        bad = None
+        for conv, operand in _text_conversions(f):
+            v = vt.of_expr(mod, f, operand)
+            if v is None:
+                continue
+            sink = _flows_to_output(f, conv)
+            if sink is not None:
+                bad = (conv, f"the text of `{norm(operand)}` ({v[0].name}: {v[1][2]})", sink)
+                break
+        if bad is None:
+            for c in [c for c in ast.walk(f) if isinstance(c, ast.Call)]:
+                v2 = vt.volatile_method_call(mod, f, c)
+                if v2 is None:
+                    continue
+                sink = _flows_to_output(f, c)
+                if sink is not None:
+                    bad = (c, f"`{norm(c)[:50]}` ({v2[0].name}.{v2[1]} returns a clock reading / an accumulated counter)", sink)
+                    break
+        if bad:
+            conv, what, sink = bad
+            R.violation(r, rel, qn, norm(stmt_of(conv))[:90], f"{what} flows into `{norm(sink)[:60]}`: a duration / call count leaves the documented volatile fields and lands in a stable field of the record, so two traces of the same configuration on the same payload differ after the volatile fields are removed", getattr(conv, "lineno", f.lineno))
+        else:
+            R.ok(r, rel, qn, f"{qn}: no volatile object text reaches the output")
